@@ -161,10 +161,10 @@ package lisp
 //@ spec letOK(bs []MalType, n int, le EnvType, w World) bool = forall(j, 0, n, implies(j % 2 == 0, is(bs[j], Symbol) && outE(evalOut(bs[j+1], le, letW(bs, j, le, w))) == nil))
 //@ spec letFail(bs []MalType, le EnvType, w World, o Outcome) bool = exists(k, 0, len(bs), k % 2 == 0 && letOK(bs, k, le, w) && ite(!is(bs[k], Symbol), failure(o, letW(bs, k, le, w)), outE(evalOut(bs[k+1], le, letW(bs, k, le, w))) != nil && o == propagate(evalOut(bs[k+1], le, letW(bs, k, le, w)))))
 //@ spec bodyOf(y MalType, from int, env EnvType, w World, o Outcome) bool = ite(len(lst(y)) == from, o == evalOut(nil, env, w), ite(!seqOK(doSub(y, from, -1), len(doSub(y, from, -1)), env, w), firstErr(doSub(y, from, -1), env, w, o), o == evalOut(lst(y)[len(lst(y))-1], env, seqW(doSub(y, from, -1), len(doSub(y, from, -1)), env, w))))
-//@ spec letStepFull(y MalType, env EnvType, w World, o Outcome) bool = ite(!(is(arg(y, 1), List) || is(arg(y, 1), Vector)) || len(seqOf(arg(y, 1))) % 2 != 0, failure(o, scopeW(w, envp(env))), ite(!letOK(seqOf(arg(y, 1)), len(seqOf(arg(y, 1))), val(scopeR(w, envp(env))), scopeW(w, envp(env))), letFail(seqOf(arg(y, 1)), val(scopeR(w, envp(env))), scopeW(w, envp(env)), o), bodyOf(y, 2, val(scopeR(w, envp(env))), letW(seqOf(arg(y, 1)), len(seqOf(arg(y, 1))), val(scopeR(w, envp(env))), scopeW(w, envp(env))), o)))
-// The full step relations of let and try (letStepFull, tryStepFull above, with the cut lemma tryShape)
-// are written down but not part of the checked relation: z3/cvc5 need 10-60 s per case for them in
-// this encoding, too close to the time-outs to be claimed. What is checked for let: the shape
+//@ spec letStepThorough(y MalType, env EnvType, w World, o Outcome) bool = ite(!(is(arg(y, 1), List) || is(arg(y, 1), Vector)) || len(seqOf(arg(y, 1))) % 2 != 0, failure(o, scopeW(w, envp(env))), ite(!letOK(seqOf(arg(y, 1)), len(seqOf(arg(y, 1))), val(scopeR(w, envp(env))), scopeW(w, envp(env))), letFail(seqOf(arg(y, 1)), val(scopeR(w, envp(env))), scopeW(w, envp(env)), o), bodyOf(y, 2, val(scopeR(w, envp(env))), letW(seqOf(arg(y, 1)), len(seqOf(arg(y, 1))), val(scopeR(w, envp(env))), scopeW(w, envp(env))), o)))
+// The full step relation of let (letStepThorough above) replaces letStep in the thorough tier only
+// (5-30 s per case). That of try (tryStepFull, with the cut lemma tryShape) is written down but not
+// part of any checked relation: z3/cvc5 need more than 60 s for three of its cases. What is checked for let: the shape
 // errors, that a new scope is opened first, and (loop 2 invariant) that the bindings are evaluated
 // in order, each in the new scope with the earlier ones visible; a let that succeeds continues the
 // loop (tail position) rather than returning. For try: the empty form only.
